@@ -259,7 +259,12 @@ func (e *Exec) objVal(st *State, obj types.Object, pos token.Pos) Val {
 			if _, bumped := st.ghosts["heapver"]; bumped {
 				h = e.sc.Fresh("g_"+o.Name(), s)
 			} else {
-				h = e.sc.Const("global:"+o.Pkg().Path()+"."+o.Name(), s)
+				h = e.initialHeap(k, s)
+				// well-known sentinel errors of the standard library are non-nil
+				if !strings.Contains(o.Pkg().Path(), ".") && s == SInt && types.Identical(o.Type(), errorType()) &&
+					(strings.HasPrefix(o.Name(), "Err") || o.Name() == "EOF" || strings.HasPrefix(o.Name(), "Skip")) {
+					e.sc.Assert(Not(Eq(h, IntLit(0))))
+				}
 			}
 			st.heaps[k] = h
 			v := Val{T: h, GT: o.Type()}
